@@ -6,7 +6,7 @@ From Coq Require Import List ZArith Bool Lia.
 From SVC Require Import Base.AMap Base.Res Base.Dec Model.Types Model.Pricing
   Model.Handlers Model.EndBlock Model.Step Proofs.Inv Proofs.Lemmas Proofs.ReqLemmas
   Proofs.PFrame Proofs.CtxOps Proofs.InvAll Proofs.ReachRun Proofs.PricingProofs
-  Proofs.StepSpecs_batch Proofs.StepSpecs_batch_block Proofs.GapOrigin Proofs.BatchEx.
+  Proofs.StepSpecs_batch Proofs.StepSpecs_batch_block Proofs.GapOrigin Proofs.BatchEx Proofs.TraceSettle.
 Import ListNotations.
 Open Scope Z_scope.
 
@@ -371,6 +371,21 @@ Proof.
   rewrite E1 in Gb, Hin, Hfee. rewrite E2 in Hfee, Hcap, Hmax. rewrite E3, <- Hh in Hexp.
   exists s0, rc, b. split; [exact R0|]. split; [now symmetry|]. split; [exact Hlt|].
   split; [exact Grc|]. split; [exact Gb|]. split; [exact Hin|]. cbv zeta. auto 10.
+Qed.
+
+(* super mode: a stored request carries no fee exactly when its context is in super mode (the
+   fee of a non-super request is at least 1) *)
+Theorem super_fee_zero cfg s r q rc :
+  wf_cfg cfg -> Reach cfg s -> get r (reqs s) = Some q -> get (rid_ctx r) (ctxs s) = Some rc ->
+  (c_super rc = true <-> r_fee q = 0) /\ (c_super rc = false -> 1 <= r_fee q).
+Proof.
+  intros Hcfg HR G Grc.
+  destruct (stored_issued cfg s r q Hcfg HR G) as (rc' & Grc' & _ & _ & Hs).
+  assert (rc' = rc) by congruence. subst rc'. split; [exact Hs|].
+  intros Hns. destruct (inv_req _ _ (Reach_Inv cfg s Hcfg HR)) as (R1 & _).
+  destruct (R1 _ _ (get_In _ _ _ G)) as (rc2 & _ & _ & _ & Hf & _).
+  destruct (Z.eq_dec (r_fee q) 0) as [E|E]; [|lia].
+  apply Hs in E. congruence.
 Qed.
 
 (* ------------------------------------------------------------------ *)
